@@ -52,6 +52,9 @@ CHECKS = {
  "C14": dict(cat="exploration", ref="7 C14", tech="token accounting written in TLA+ (RuleFlags.tla); TLC enumerates every order of up to 4 flags (incl. stray positional words) and judges the rule the real flags.Parse returned against the argument list",
              text="For all 8 411 flag orders the harness fills in sampled values (with spaces, operator characters, '=' signs, leading and trailing junk), shell-quotes the arguments itself, and logs arguments and result; TLC requires of every accepted line that no positional word or dangling flag exists, that delete/watch/syscall flags are not mixed and -a/-A is given exactly once for syscall rules, and that every -F/-C argument equals field+operator+value of its filter with the longest operator at the first operator position, and -S/-k/-p/-w/-a/-A are reflected in full.",
              note="Single-valued flags are never repeated (the statement does not say which occurrence wins); no whitespace is placed around operators or commas. Rejected lines are not judged."),
+ "C20": dict(cat="exploration", ref="7 C20", tech="complete dump of every table entry judged by TLC with relational invariants written in TLA+ (Tables.tla); exhaustive over the finite tables",
+             text="All 65536 record type codes (name round trip, text marshalling, categorisation in three visiting orders), every errno name and number (inverse maps, alias classes), every architecture (unique names and codes, acceptance and print-back by the rule package), every per-architecture syscall entry (names unique per table), every rule field/operator/comparison through Build -> ToCommandLine, and every entry of normalizations.yaml (record types the parser knows, syscalls present in some table, one normalisation per syscall, at most one unqualified normalisation per record type, file loads) are dumped and judged; the space is finite and enumerated completely.",
+             note="Exhaustive over the tables as compiled into the harness plus the YAML file on disk. Trusted: TLC, the harness's independent YAML parse, three visiting orders as the probe for call-order dependence."),
 }
 
 NOT_YET = {
